@@ -8,7 +8,7 @@ from typing import Dict, List, Optional, Set, Tuple
 from ..core import astutil as A
 from ..core.index import AnalysisError, ClassInfo, FuncInfo
 from ..selftest import M
-from .common import may_conds, is_early_exit_guard, BASE_FILTER, BASE_IFILTER, T, attr_stores, calls_named, conds, every_origin, facts, need, subscript_stores, where
+from .common import may_conds, atoms_of, is_early_exit_guard, BASE_FILTER, BASE_IFILTER, T, attr_stores, calls_named, conds, every_origin, facts, need, subscript_stores, where
 from . import c12, c13
 
 PRE = "ufo2ft.preProcessor"
@@ -346,8 +346,8 @@ def r096(prog, chk):
                 par = ix.parent(st)
                 if not isinstance(par, ast.If) or st not in par.body:
                     return False
-                t = par.test
-                return isinstance(t, ast.Compare) and len(t.ops) == 1 and ((isinstance(t.ops[0], ast.Is) and A.is_const(t.comparators[0], None)) or isinstance(t.ops[0], ast.NotIn))
+                ats = atoms_of(par.test, True)  # `not (g is not None)` is `g is None`
+                return len(ats) == 1 and ((ats[0][0] == "is" and ats[0][2] == "None") or ats[0][0] == "notin")
             okc = all(lacks_glyph_only(s) for s in conts)
             # the operation itself is not applied under a per-master condition other than "this master has the glyph"
             for c_ in A.calls_in(lp):
